@@ -93,6 +93,8 @@ def search(ctx):
     for it in range(n):
         p = pd.copy() if it % 3 == 0 else rand_p(rng)
         x = rand_x(rng, above=(it % 4 != 0))
+        if it % 11 == 5:
+            x[2] = 0.0      # altitude exactly zero with a non-zero velocity
         if it % 7 == 0:
             x[3:6] = 0   # zero airspeed branch
         u = x[13:17] + rng.standard_normal(4) * 50 * (it % 2)
@@ -151,6 +153,8 @@ def search(ctx):
                    {"p": p.tolist(), "x": x.tolist(), "xdot": xd.tolist()}, np.max(np.abs(xd)), 1e-9)
         # free fall
         x = rand_x(rng); x[13:17] = 0; p2 = p.copy(); p2[19] = 0
+        if it % 3 == 1:
+            x[2] = 0.0      # exactly on the ground plane (the default initial altitude), moving: touching is not penetrating
         a = np.atleast_1d(ga(x, np.zeros(4), p2, np.zeros(3), 0.01)); ev += 1
         if not np.max(np.abs(a)) <= 1e-12:
             report("freefall", "accelerometer not zero in free fall", {"x": x.tolist(), "p": p2.tolist()}, np.max(np.abs(a)), 1e-12)
